@@ -46,6 +46,9 @@ inductive RawCode where
        (names varnames freevars cellvars : List PStr) (consts : List RConst)
 end
 
+def RawCode.consts : RawCode → List RConst
+  | .mk _ _ _ _ _ _ _ _ _ _ _ _ _ _ _ cs => cs
+
 structure Args where
   posOnly : List PStr := []
   posOrKw : List PStr := []
